@@ -10,8 +10,8 @@
      context.py          RenderContext.get / extend / copy (lookup order of the scope chain)
    The pre-fix walk is kept as visit_old / analyze_old (witnesses of the three defects).
 
-   Not modelled (stated in the manifest): nested paths a[b.c], ranges, elsif/unless/case/tablerow/cycle/
-   break/continue, filter VALUES (a filtered expression, a capture and the forloop object evaluate to the
+   Not modelled (stated in the manifest): paths nested more than one level (a[b[c]]), for/tablerow
+   limit/offset/cols/reversed, break/continue, ifchanged, inline snippets, filter VALUES (a filtered expression, a capture and the forloop object evaluate to the
    opaque value VOpq; the generator never lets an opaque value reach a condition, a loop or a with/for
    binding), the special path keys size/first/last, template names containing a dot, resource limits,
    error modes other than strict, hash collisions of Partial.key. *)
@@ -31,6 +31,14 @@ Definition s_call : str := [99; 97; 108; 108]%N.
 Definition s_include : str := [105; 110; 99; 108; 117; 100; 101]%N.
 Definition s_render : str := [114; 101; 110; 100; 101; 114]%N.
 Definition s_increment : str := [105; 110; 99; 114; 101; 109; 101; 110; 116]%N.
+Definition s_decrement : str := [100; 101; 99; 114; 101; 109; 101; 110; 116]%N.
+Definition s_unless : str := [117; 110; 108; 101; 115; 115]%N.
+Definition s_case : str := [99; 97; 115; 101]%N.
+Definition s_tablerow : str := [116; 97; 98; 108; 101; 114; 111; 119]%N.
+Definition s_tablerowloop : str := [116; 97; 98; 108; 101; 114; 111; 119; 108; 111; 111; 112]%N.
+Definition s_cycle : str := [99; 121; 99; 108; 101]%N.
+Definition s_echo : str := [101; 99; 104; 111]%N.
+Definition s_liquid : str := [108; 105; 113; 117; 105; 100]%N.
 
 (* ----------------------------------------------------------------- syntax *)
 Inductive value :=
@@ -38,33 +46,52 @@ Inductive value :=
 | VBool (b : bool) | VInt (z : Z) | VStr (s : str)
 | VList (l : list value) | VMap (m : list (str * value)).
 
-Inductive seg := SKey (s : str) | SIdx (z : Z).
+(* a path may use, as a segment, another path (a[b.c]); one level of nesting is modelled *)
+Inductive fseg := FKey (s : str) | FIdx (z : Z).
+Record fpath := { fp_root : str; fp_segs : list fseg }.
+Inductive seg := SKey (s : str) | SIdx (z : Z) | SSub (q : fpath).
 Record path := { p_root : str; p_segs : list seg }.
+Definition of_fseg (s : fseg) : seg := match s with FKey k => SKey k | FIdx i => SIdx i end.
+Definition of_fpath (q : fpath) : path := {| p_root := fp_root q; p_segs := map of_fseg (fp_segs q) |}.
 Inductive atom := ALit (v : value) | AVar (p : path).
 Record fcall := { f_name : str; f_args : list atom }.
 Record expr := { e_left : atom; e_filters : list fcall }.
 Inductive cond := CTruthy (a : atom) | CEq (a b : atom) | CAnd (c d : cond) | COr (c d : cond).
 
+(* what a for / tablerow loop iterates over: a path or a range (a..b) *)
+Inductive iter_src := IPath (p : path) | IRange (a b : atom).
+
 Inductive node :=
 | NText
 | NOutput (e : expr)
+| NEcho (e : expr)
 | NAssign (x : str) (e : expr)
 | NCapture (x : str) (body : list node)
-| NFor (x : str) (it : path) (body els : list node)
-| NIf (c : cond) (thn els : list node)
+| NFor (x : str) (it : iter_src) (body els : list node)
+| NTablerow (x : str) (it : iter_src) (body : list node)
+| NIf (neg : bool) (c : cond) (thn : list node) (alts : list (cond * list node)) (els : list node)   (* neg: unless *)
+| NElsif (c : cond) (body : list node)                 (* ConditionalBlockNode: a child of if/unless *)
+| NCase (subj : atom) (whens : list (list atom * list node)) (els : list node)
+| NWhen (subj : atom) (alts : list atom) (body : list node)    (* MultiExpressionBlockNode: a child of case *)
+| NCycle (group : option atom) (args : list atom)
+| NLiquid (body : list node)
 | NWith (binds : list (str * atom)) (body : list node)
 | NMacro (m : str) (params : list (str * option atom)) (body : list node)
 | NCall (m : str) (pos : list atom) (kws : list (str * atom))
 | NInclude (p : str) (bind : option (path * option str)) (args : list (str * atom))
 | NRender (p : str) (bind : option (bool * path * option str)) (args : list (str * atom))
-| NIncrement (x : str).
+| NIncrement (x : str)
+| NDecrement (x : str).
 
 (* a loader of named templates; the root template is looked up by name like any partial *)
 Record prog := { pg_root : str; pg_tpls : list (str * list node) }.
 
 (* ------------------------------------------- what a node shows to the walk *)
 Definition plain (a : atom) : expr := {| e_left := a; e_filters := [] |}.
-Definition atom_paths (a : atom) : list path := match a with AVar p => [p] | ALit _ => [] end.
+(* _analyze_variables on a Path: the path itself, then the paths used as its segments *)
+Definition sub_paths (p : path) : list path :=
+  flat_map (fun s => match s with SSub q => [of_fpath q] | _ => [] end) (p_segs p).
+Definition atom_paths (a : atom) : list path := match a with AVar p => p :: sub_paths p | ALit _ => [] end.
 (* _analyze_variables: the left operand, then the arguments of each filter in order *)
 Definition expr_paths (e : expr) : list path :=
   atom_paths (e_left e) ++ flat_map (fun f => flat_map atom_paths (f_args f)) (e_filters e).
@@ -80,11 +107,17 @@ Definition bind_alias (p : str) (alias : option str) : str := match alias with S
 
 Definition n_tag (n : node) : option str :=
   match n with
-  | NText | NOutput _ => None
+  | NText | NOutput _ | NElsif _ _ | NWhen _ _ _ => None
+  | NEcho _ => Some s_echo
+  | NTablerow _ _ _ => Some s_tablerow
+  | NCase _ _ _ => Some s_case
+  | NCycle _ _ => Some s_cycle
+  | NLiquid _ => Some s_liquid
+  | NDecrement _ => Some s_decrement
   | NAssign _ _ => Some s_assign
   | NCapture _ _ => Some s_capture
   | NFor _ _ _ _ => Some s_for
-  | NIf _ _ _ => Some s_if
+  | NIf neg _ _ _ _ => Some (if neg then s_unless else s_if)
   | NWith _ _ => Some s_with
   | NMacro _ _ _ => Some s_macro
   | NCall _ _ _ => Some s_call
@@ -93,11 +126,18 @@ Definition n_tag (n : node) : option str :=
   | NIncrement _ => Some s_increment
   end.
 
+Definition iter_exprs (it : iter_src) : list expr :=
+  match it with IPath p => [plain (AVar p)] | IRange a b => [plain a; plain b] end.
+Definition opt_atom (o : option atom) : list atom := match o with Some a => [a] | None => [] end.
+
 Definition n_exprs (n : node) : list expr :=
   match n with
-  | NOutput e | NAssign _ e => [e]
-  | NFor _ it _ _ => [plain (AVar it)]
-  | NIf c _ _ => map plain (cond_atoms c)
+  | NOutput e | NEcho e | NAssign _ e => [e]
+  | NFor _ it _ _ | NTablerow _ it _ => iter_exprs it
+  | NIf _ c _ _ _ | NElsif c _ => map plain (cond_atoms c)
+  | NCase subj _ _ => [plain subj]
+  | NWhen _ alts _ => map plain alts        (* _AnyExpression.children(): the when values, not the subject *)
+  | NCycle g args => map plain (opt_atom g ++ args)
   | NWith b _ => map (fun kv => plain (snd kv)) b
   | NMacro _ ps _ => flat_map (fun p => match snd p with Some a => [plain a] | None => [] end) ps
   | NCall _ pos kws => map plain pos ++ map (fun kv => plain (snd kv)) kws
@@ -109,11 +149,12 @@ Definition n_exprs (n : node) : list expr :=
   end.
 
 Definition n_tscope (n : node) : list str :=
-  match n with NAssign x _ | NCapture x _ | NIncrement x => [x] | _ => [] end.
+  match n with NAssign x _ | NCapture x _ | NIncrement x | NDecrement x => [x] | _ => [] end.
 
 Definition n_bscope (n : node) : list str :=
   match n with
   | NFor x _ _ _ => [x; s_forloop]
+  | NTablerow x _ _ => [x; s_tablerowloop]
   | NWith b _ => map fst b
   | NMacro _ ps _ => s_args :: s_kwargs :: map fst ps
   | _ => []
@@ -121,8 +162,10 @@ Definition n_bscope (n : node) : list str :=
 
 Definition n_children (n : node) : list node :=
   match n with
-  | NCapture _ b | NWith _ b | NMacro _ _ b => b
-  | NFor _ _ b e | NIf _ b e => b ++ e
+  | NCapture _ b | NWith _ b | NMacro _ _ b | NTablerow _ _ b | NElsif _ b | NWhen _ _ b | NLiquid b => b
+  | NFor _ _ b e => b ++ e
+  | NIf _ _ b alts e => b ++ map (fun cb => NElsif (fst cb) (snd cb)) alts ++ e
+  | NCase subj whens e => map (fun ab => NWhen subj (fst ab) (snd ab)) whens ++ e
   | _ => []
   end.
 
@@ -388,10 +431,12 @@ Fixpoint nth_value (l : list value) (i : nat) : value :=
   | _ :: l', S i' => nth_value l' i'
   end.
 
-Definition get_seg (v : value) (s : seg) : value :=
-  match v, s with
-  | VMap m, SKey k => match alookup k m with Some x => x | None => VUndef end
-  | VList l, SIdx i =>
+(* RenderContext.get_item with an evaluated key *)
+Definition get_key (v : value) (k : value) : value :=
+  match v, k with
+  | VMap m, VStr s => match alookup s m with Some x => x | None => VUndef end
+  | VList l, (VInt _ | VBool _) =>
+      let i := match k with VInt z => z | VBool true => 1%Z | _ => 0%Z end in
       let len := Z.of_nat (length l) in
       if (0 <=? i)%Z && (i <? len)%Z then nth_value l (Z.to_nat i)
       else if (i <? 0)%Z && (- len <=? i)%Z then nth_value l (Z.to_nat (len + i))
@@ -422,12 +467,41 @@ Definition to_iter (v : value) : list value :=
   | _ => []
   end.
 
+Definition eval_fpath (c : ctx) (sg : list str) (q : fpath) (st : dstate) : value * dstate :=
+  let '(v0, g) := lookup c st (fp_root q) in
+  (fold_left get_key (map (fun s => match s with FKey k => VStr k | FIdx i => VInt i end) (fp_segs q)) v0,
+   emit (ERead (of_fpath q) g (mem (fp_root q) sg)) st).
+
+(* the segments of a path, nested paths evaluated (and read) left to right *)
+Fixpoint eval_segs (c : ctx) (sg : list str) (l : list seg) (st : dstate) : list value * dstate :=
+  match l with
+  | [] => ([], st)
+  | s :: l' =>
+      let '(k, st1) := match s with
+                       | SKey x => (VStr x, st)
+                       | SIdx i => (VInt i, st)
+                       | SSub q => eval_fpath c sg q st
+                       end in
+      let '(ks, st2) := eval_segs c sg l' st1 in
+      (k :: ks, st2)
+  end.
+
+(* RangeLiteral._make_range: unconvertible bounds count as 0; a descending range is empty *)
+Definition to_int0 (v : value) : Z :=
+  match v with VInt z => z | VBool true => 1%Z | _ => 0%Z end.
+Fixpoint zrange (lo : Z) (n : nat) : list value :=
+  match n with O => [] | S n' => VInt lo :: zrange (lo + 1)%Z n' end.
+Definition make_range (a b : value) : list value :=
+  let lo := to_int0 a in let hi := to_int0 b in
+  if (hi <? lo)%Z then [] else zrange lo (Z.to_nat (hi - lo + 1)).
+
 Definition eval_atom (c : ctx) (sg : list str) (a : atom) (st : dstate) : value * dstate :=
   match a with
   | ALit v => (v, st)
   | AVar p =>
-      let '(v0, g) := lookup c st (p_root p) in
-      (fold_left get_seg (p_segs p) v0, emit (ERead p g (mem (p_root p) sg)) st)
+      let '(ks, st1) := eval_segs c sg (p_segs p) st in
+      let '(v0, g) := lookup c st1 (p_root p) in
+      (fold_left get_key ks v0, emit (ERead p g (mem (p_root p) sg)) st1)
   end.
 
 Fixpoint eval_atoms (c : ctx) (sg : list str) (l : list atom) (st : dstate) : list value * dstate :=
@@ -559,11 +633,54 @@ Fixpoint assigned (fuel : nat) (n : node) : res (list str) :=
       Ok (n_tscope n ++ rest)
   end.
 
+Definition eval_iter (c : ctx) (sg : list str) (it : iter_src) (st : dstate) : list value * dstate :=
+  match it with
+  | IPath p => let '(v, st1) := eval_atom c sg (AVar p) st in (to_iter v, st1)
+  | IRange a b =>
+      let '(va, st1) := eval_atom c sg a st in
+      let '(vb, st2) := eval_atom c sg b st1 in
+      (make_range va vb, st2)
+  end.
+
 (* iterate a body over items, the loop variable bound by mk *)
 Fixpoint iter {X} (run : X -> dstate -> dstate) (items : list X) (st : dstate) : dstate :=
   match items with
   | [] => st
   | x :: r => iter run r (run x st)
+  end.
+
+(* the elsif branches and the else branch of if/unless: sigma grows by what the skipped branches assign *)
+Fixpoint run_alts (runl : list str -> list node -> dstate -> dstate)
+  (evc : list str -> cond -> dstate -> bool * dstate) (asgl : list node -> res (list str))
+  (sg : list str) (alts : list (cond * list node)) (els : list node) (st : dstate) : dstate :=
+  match alts with
+  | [] => runl sg els st
+  | (cd, b) :: r =>
+      let '(v, st1) := evc sg cd st in
+      if v then runl sg b st1
+      else match asgl b with
+           | Ok a => run_alts runl evc asgl (sg ++ a) r els st1
+           | _ => exhaust st1
+           end
+  end.
+
+(* the when blocks of case: each evaluates the subject and its values, and renders once per equal value;
+   the else block renders if no when block matched *)
+Fixpoint run_whens (runl : list str -> list node -> dstate -> dstate)
+  (evs : dstate -> value * dstate) (eva : list str -> list atom -> dstate -> list value * dstate)
+  (asgl : list node -> res (list str))
+  (sg : list str) (whens : list (list atom * list node)) (els : list node) (matched : bool) (st : dstate) : dstate :=
+  match whens with
+  | [] => if matched then st else runl sg els st
+  | (atoms, b) :: r =>
+      let '(v, st1) := evs st in
+      let '(ws, st2) := eva sg atoms st1 in
+      let k := length (filter (veq v) ws) in
+      let st3 := iter (fun _ s => runl sg b s) (repeat tt k) st2 in
+      match asgl b with
+      | Ok a => run_whens runl evs eva asgl (sg ++ a) r els (matched || Nat.ltb 0 k) st3
+      | _ => exhaust st3
+      end
   end.
 
 (* sg: the names that are, at this reference, bound by an enclosing block or assigned earlier in source
@@ -585,9 +702,10 @@ Fixpoint exec (fuel : nat) (c : ctx) (sg : list str) (n : node) (st : dstate) : 
       | NOutput e => snd (eval_expr c sg e st)
       | NAssign x e => let '(v, st1) := eval_expr c sg e st in assign x v st1
       | NCapture x body => assign x VOpq (exec_list sgc body st)
+      | NEcho e => snd (eval_expr c sg e st)
       | NFor x it body els =>
-          let '(v, st1) := eval_atom c sg (AVar it) st in
-          match to_iter v with
+          let '(its, st1) := eval_iter c sg it st in
+          match its with
           | [] =>
               match flatM (assigned f) body with
               | Ok a => exec_list (sgc ++ a) els st1
@@ -595,13 +713,24 @@ Fixpoint exec (fuel : nat) (c : ctx) (sg : list str) (n : node) (st : dstate) : 
               end
           | items => iter (fun item s => exec_in (push_ns [(s_forloop, VOpq); (x, item)] c) sgc body s) items st1
           end
-      | NIf cd thn els =>
+      | NTablerow x it body =>
+          let '(its, st1) := eval_iter c sg it st in
+          iter (fun item s => exec_in (push_ns [(x, item); (s_tablerowloop, VOpq)] c) sgc body s) its st1
+      | NIf neg cd thn alts els =>
           let '(b, st1) := eval_cond c sg cd st in
-          if b then exec_list sgc thn st1
+          if xorb neg b then exec_list sgc thn st1
           else match flatM (assigned f) thn with
-               | Ok a => exec_list (sgc ++ a) els st1
+               | Ok a => run_alts exec_list (eval_cond c) (flatM (assigned f)) (sgc ++ a) alts els st1
                | _ => exhaust st1
                end
+      | NElsif cd body =>
+          let '(b, st1) := eval_cond c sg cd st in
+          if b then exec_list sgc body st1 else st1
+      | NCase subj whens els =>
+          run_whens exec_list (eval_atom c sg subj) (eval_atoms c) (flatM (assigned f)) sgc whens els false st
+      | NWhen _ _ _ => st    (* only ever a child of case (run_whens); the parser builds no free-standing one *)
+      | NCycle g args => snd (eval_atoms c sg (opt_atom g ++ args) st)
+      | NLiquid body => exec_list sgc body st
       | NWith binds body =>
           let '(ns, st1) := eval_binds c sg binds [] st in
           exec_in (push_ns ns c) sgc body st1
@@ -662,6 +791,9 @@ Fixpoint exec (fuel : nat) (c : ctx) (sg : list str) (n : node) (st : dstate) : 
       | NIncrement x =>
           let z := match alookup x (d_counters st) with Some z => z | None => 0%Z end in
           d_set_counters ((x, (z + 1)%Z) :: d_counters st) st
+      | NDecrement x =>
+          let z := match alookup x (d_counters st) with Some z => z | None => 0%Z end in
+          d_set_counters ((x, (z - 1)%Z) :: d_counters st) st
       end
   end
   end.
@@ -704,8 +836,15 @@ Definition obs_of (st : astate) : aobs :=
      ob_locals := count_names (a_locals st); ob_filters := count_names (a_filters st);
      ob_tags := count_names (a_tags st) |}.
 
+Definition fseg_eqb (a b : fseg) : bool :=
+  match a, b with FKey x, FKey y => str_eqb x y | FIdx x, FIdx y => Z.eqb x y | _, _ => false end.
 Definition seg_eqb (a b : seg) : bool :=
-  match a, b with SKey x, SKey y => str_eqb x y | SIdx x, SIdx y => Z.eqb x y | _, _ => false end.
+  match a, b with
+  | SKey x, SKey y => str_eqb x y
+  | SIdx x, SIdx y => Z.eqb x y
+  | SSub p, SSub q => str_eqb (fp_root p) (fp_root q) && list_eqb fseg_eqb (fp_segs p) (fp_segs q)
+  | _, _ => false
+  end.
 Definition pair_eqb {A B} (ea : A -> A -> bool) (eb : B -> B -> bool) (x y : A * B) : bool :=
   ea (fst x) (fst y) && eb (snd x) (snd y).
 Definition grouped_eqb := list_eqb (pair_eqb str_eqb (list_eqb (list_eqb seg_eqb))).
